@@ -167,7 +167,11 @@ def build(cs, valid_only=False):
 def check(cfg, ops, seed, counters):
     from harness.props import c01
     vio = []
-    sess = driver.replay(cfg, ops, seed)
+    # a quarter of the cases on objects that keep the layout consistent after every call
+    ac = seed % 4 == 2
+    if ac:
+        counters['always_consistent_cases'] = 1
+    sess = driver.replay(cfg, ops, seed, always_consistent=ac)
     if getattr(sess, 'reopen_failed', None):
         sess.close()
         return [{'key': 'reopen-before-hybrid-fails', 'detail': sess.reopen_failed}]
@@ -177,9 +181,10 @@ def check(cfg, ops, seed, counters):
         need = (2 if m.hybrid.get('mac') else 1) if (m.hybrid.get('efi') or m.hybrid.get('mac')) else 0
         pe = m.hybrid.get('part_entry', 1)
         clash = (m.hybrid.get('efi') and pe == 2) or (m.hybrid.get('mac') and pe == 3)
-        if n_efi_sections != need or clash:
-            # not a combination the documentation describes (efi needs one EFI section,
-            # mac two; offsets beyond the system area): not this property's subject
+        if n_efi_sections < need or clash:
+            # not a combination the documentation describes (efi needs an EFI section,
+            # mac two; offsets beyond the system area): not this property's subject.
+            # EFI sections beyond those asked for are simply not described by the GPT / APM.
             counters['skipped_invalid_combination'] = counters.get('skipped_invalid_combination', 0) + 1
             sess.close()
             return []
@@ -187,7 +192,7 @@ def check(cfg, ops, seed, counters):
         # a partition offset at or beyond the end of the ISO describes no partition at all: not a
         # combination the documentation describes.  The size of the ISO part is that of the twin
         # mastered without add_isohybrid.
-        tw0 = driver.replay(cfg, [o for o in ops if o['op'] != 'add_isohybrid'], seed)
+        tw0 = driver.replay(cfg, [o for o in ops if o['op'] != 'add_isohybrid'], seed, always_consistent=ac)
         timg0, toc0 = tw0.write()
         tw0.close()
         if not toc0.ok or m.hybrid['part_offset'] * 512 >= len(timg0.getvalue()):
@@ -204,7 +209,7 @@ def check(cfg, ops, seed, counters):
         sess.close()
         if any(o['op'] == 'rm_isohybrid' for o in ops):
             # hybridisation taken back: the image is the one that never was a hybrid
-            tw = driver.replay(cfg, [o for o in ops if o['op'] not in ('add_isohybrid', 'rm_isohybrid')], seed)
+            tw = driver.replay(cfg, [o for o in ops if o['op'] not in ('add_isohybrid', 'rm_isohybrid')], seed, always_consistent=ac)
             timg, toc = tw.write()
             tw.close()
             counters['rm_isohybrid_twins'] = counters.get('rm_isohybrid_twins', 0) + 1
@@ -245,7 +250,8 @@ def check(cfg, ops, seed, counters):
         if mbr.get('active_index') is not None and mbr['active_index'] + 1 != pe and not (want.get('efi') or want.get('mac')):
             vio.append({'key': 'mbr:active', 'detail': 'active entry %d requested %d' % (mbr['active_index'] + 1, pe)})
         # GPT partitions delimit the El Torito images
-        if want.get('efi') and hy.gpt_primary is not None and et.present:
+        # (with more EFI sections than asked for, which of them the partitions describe is not stated)
+        if want.get('efi') and hy.gpt_primary is not None and et.present and n_efi_sections == need:
             efi_entries = [e for sec in et.sections if sec.platform_id == 0xef for e in sec.entries]
             parts = hy.gpt_primary['parts']
             exp_ranges = []
@@ -263,7 +269,7 @@ def check(cfg, ops, seed, counters):
             counters['gpt_checked'] = counters.get('gpt_checked', 0) + 1
     # twin without add_isohybrid: ISO part unchanged
     twin_ops = [o for o in ops if o['op'] != 'add_isohybrid']
-    tw = driver.replay(cfg, twin_ops, seed)
+    tw = driver.replay(cfg, twin_ops, seed, always_consistent=ac)
     timg, toc = tw.write()
     counters['twin_runs'] = counters.get('twin_runs', 0) + 1
     if toc.ok:
